@@ -52,14 +52,45 @@ pub(crate) mod verif_timer {
         let mut ever = [false; K];
         let mut fresh = [true; K];
         let mut bits = 0u32;
-        let mut step = 0;
-        while step < n && !s.exhausted() {
-            step += 1;
-            let op = s.below(11);
+        // The script has a phase structure so that the expensive operation (check_expirations: a loop of heap removals)
+        // appears at two places of the formula only:  n1 cheap operations, [check], n2 cheap operations, [check]
+        // (cheap = poll A|B x3, drop x3, advance clock; each check is optional, chosen by the script).
+        let n1 = (_cfg & 15) as usize;
+        let n2 = ((_cfg >> 4) & 15) as usize;
+        let kslots = if (_cfg >> 8) & 3 == 0 { K } else { ((_cfg >> 8) & 3) as usize };
+        // alphabet partitions (constant, so the disabled code is dropped by symbolic execution): heap removal is by far the
+        // most expensive code for the back end, so histories either drop futures or run check_expirations, not both
+        let nodrop = (_cfg >> 10) & 1 == 1;
+        let nocheck = (_cfg >> 11) & 1 == 1;
+        let _ = n;
+        macro_rules! post_op { () => {
+            oracle!(p, P18, alloc_events() == 0, "C18 timer: an operation allocated or freed heap memory");
+            // next_expiration() = smallest deadline among registered, not yet expired, not dropped futures
+            let mut mn: Option<u64> = None;
+            let mut i = 0;
+            while i < K {
+                if reg[i] && mn.map_or(true, |m| dl[i] < m) { mn = Some(dl[i]); }
+                i += 1;
+            }
+            oracle!(p, P15, svc.next_expiration() == mn, "C15 timer: next_expiration() differs from the smallest registered deadline");
+            if (p & P01) != 0 {
+                // C01: a dropped future is in no wait queue any more, so its task is never woken again
+                if dead[0] { assert!(c0a.n() == dsn[0][0] && c0b.n() == dsn[0][1], "C01 timer: the task of a dropped future was woken (dangling waiter)"); }
+                if dead[1] { assert!(c1a.n() == dsn[1][0] && c1b.n() == dsn[1][1], "C01 timer: the task of a dropped future was woken (dangling waiter)"); }
+                if dead[2] { assert!(c2a.n() == dsn[2][0] && c2b.n() == dsn[2][1], "C01 timer: the task of a dropped future was woken (dangling waiter)"); }
+            }
+            if (p & P17) != 0 {
+                if alive[0] { assert!(f0.is_terminated() == done[0], "C17 timer: is_terminated() differs from 'completed'"); }
+                if alive[1] { assert!(f1.is_terminated() == done[1], "C17 timer: is_terminated() differs from 'completed'"); }
+                if alive[2] { assert!(f2.is_terminated() == done[2], "C17 timer: is_terminated() differs from 'completed'"); }
+            }
+        } }
+        macro_rules! cheap_op { () => {{
+            let op = s.below(10);
             if op < 6 {
                 let i = (op / 2) as usize;
                 let w = op % 2;
-                s.assume(!done[i]);
+                s.assume(i < kslots && !done[i]);
                 s.assume(i == 0 || ever[i - 1]);
                 s.assume(!fresh[i] || w == 0);
                 ever[i] = true;
@@ -103,7 +134,7 @@ pub(crate) mod verif_timer {
                         snap[i] = cell.n();
                     }
                 }
-            } else if op < 9 {
+            } else if !nodrop && op >= 6 && op < 9 {
                 let i = (op - 6) as usize;
                 s.assume(alive[i] && (reg[i] || expired[i] || done[i]));
                 let f = match i { 0 => &mut f0, 1 => &mut f1, _ => &mut f2 };
@@ -120,6 +151,12 @@ pub(crate) mod verif_timer {
                 now += d;
                 CLOCK.0.store(now, Ordering::Relaxed);
             } else {
+                s.assume(false);
+            }
+            post_op!();
+        }} }
+        macro_rules! check_op { () => {{
+            if !nocheck && s.flag() {
                 let before = [c0a.n(), c0b.n(), c1a.n(), c1b.n(), c2a.n(), c2b.n()];
                 svc.check_expirations();
                 let after = [c0a.n(), c0b.n(), c1a.n(), c1b.n(), c2a.n(), c2b.n()];
@@ -161,28 +198,15 @@ pub(crate) mod verif_timer {
                     if reg[i] && dl[i] <= now { reg[i] = false; expired[i] = true; }
                     i += 1;
                 }
+                post_op!();
             }
-            oracle!(p, P18, alloc_events() == 0, "C18 timer: an operation allocated or freed heap memory");
-            // next_expiration() = smallest deadline among registered, not yet expired, not dropped futures
-            let mut mn: Option<u64> = None;
-            let mut i = 0;
-            while i < K {
-                if reg[i] && mn.map_or(true, |m| dl[i] < m) { mn = Some(dl[i]); }
-                i += 1;
-            }
-            oracle!(p, P15, svc.next_expiration() == mn, "C15 timer: next_expiration() differs from the smallest registered deadline");
-            if (p & P01) != 0 {
-                // C01: a dropped future is in no wait queue any more, so its task is never woken again
-                if dead[0] { assert!(c0a.n() == dsn[0][0] && c0b.n() == dsn[0][1], "C01 timer: the task of a dropped future was woken (dangling waiter)"); }
-                if dead[1] { assert!(c1a.n() == dsn[1][0] && c1b.n() == dsn[1][1], "C01 timer: the task of a dropped future was woken (dangling waiter)"); }
-                if dead[2] { assert!(c2a.n() == dsn[2][0] && c2b.n() == dsn[2][1], "C01 timer: the task of a dropped future was woken (dangling waiter)"); }
-            }
-            if (p & P17) != 0 {
-                if alive[0] { assert!(f0.is_terminated() == done[0], "C17 timer: is_terminated() differs from 'completed'"); }
-                if alive[1] { assert!(f1.is_terminated() == done[1], "C17 timer: is_terminated() differs from 'completed'"); }
-                if alive[2] { assert!(f2.is_terminated() == done[2], "C17 timer: is_terminated() differs from 'completed'"); }
-            }
-        }
+        }} }
+        let mut step = 0;
+        while step < n1 && !s.exhausted() { step += 1; cheap_op!(); }
+        if !s.exhausted() { check_op!(); }
+        step = 0;
+        while step < n2 && !s.exhausted() { step += 1; cheap_op!(); }
+        if !s.exhausted() { check_op!(); }
         s.reached(bits);
         bits
     }
@@ -263,6 +287,7 @@ pub(crate) mod verif_timer {
             let mut f3 = ManuallyDrop::new(LocalTimer::deadline(&svc, dl[3]));
             let st = [any_st(), any_st(), any_st(), any_st()];
             if kmax < 4 { kani::assume(st[3] == 3); } // partition: only kmax futures take part
+            if kmax < 3 { kani::assume(st[2] == 3); }
             let lw: [bool; 4] = [kani::any(), kani::any(), kani::any(), kani::any()];
             macro_rules! setup {
                 ($f:ident, $i:expr, $ca:expr, $cb:expr) => {
@@ -380,6 +405,73 @@ pub(crate) mod verif_timer {
     #[cfg(kani)]
     mod proofs {
         use super::*;
+
+        /// E-STEP for check_expirations over K=2 registered-or-not timer futures, built without loops (heap removal inside a
+        /// loop is the most expensive code for the back end; this is the cheapest harness that still covers: due / not due,
+        /// equal deadlines, both heap shapes, wake order, latest waker, next_expiration afterwards).
+        fn check2(p: u32) {
+            let now: u64 = kani::any();
+            CLOCK.0.store(now, Ordering::Relaxed);
+            let svc = GenericTimerService::<NoopLock>::new(&CLOCK);
+            let (c0a, c0b, c1a, c1b) = (WakeCell::new(), WakeCell::new(), WakeCell::new(), WakeCell::new());
+            let d0: u64 = kani::any();
+            let d1: u64 = kani::any();
+            let mut f0 = ManuallyDrop::new(LocalTimer::deadline(&svc, d0));
+            let mut f1 = ManuallyDrop::new(LocalTimer::deadline(&svc, d1));
+            let r0: bool = kani::any();
+            let r1: bool = kani::any();
+            let w0: bool = kani::any();
+            let w1: bool = kani::any();
+            if r0 { f0.wait_node.state = PollState::Registered; f0.wait_node.task = Some(if w0 { mk_waker(&c0a) } else { mk_waker(&c0b) }); }
+            if r1 { f1.wait_node.state = PollState::Registered; f1.wait_node.task = Some(if w1 { mk_waker(&c1a) } else { mk_waker(&c1b) }); }
+            {
+                let mut g = svc.inner.lock();
+                // the real insert builds the two-node heap (both insertion orders => both shapes for equal deadlines)
+                let first0: bool = kani::any();
+                unsafe {
+                    if first0 {
+                        if r0 { g.waiters.insert(&mut f0.wait_node); }
+                        if r1 { g.waiters.insert(&mut f1.wait_node); }
+                    } else {
+                        if r1 { g.waiters.insert(&mut f1.wait_node); }
+                        if r0 { g.waiters.insert(&mut f0.wait_node); }
+                    }
+                }
+            }
+            svc.check_expirations();
+            let due0 = r0 && d0 <= now;
+            let due1 = r1 && d1 <= now;
+            let (n0, o0) = if w0 { (c0a.n(), c0b.n()) } else { (c0b.n(), c0a.n()) };
+            let (n1, o1) = if w1 { (c1a.n(), c1b.n()) } else { (c1b.n(), c1a.n()) };
+            if (p & P15) != 0 {
+                assert!(n0 == due0 as u32 && o0 == 0, "C15 timer check2: a due timer was not woken exactly once through its latest waker, or a timer that is not due was woken");
+                assert!(n1 == due1 as u32 && o1 == 0, "C15 timer check2: a due timer was not woken exactly once through its latest waker, or a timer that is not due was woken");
+                assert!((f0.wait_node.state == PollState::Expired) == due0 && (f1.wait_node.state == PollState::Expired) == due1,
+                    "C15 timer check2: exactly the due timers must be marked expired");
+                if due0 && due1 && d0 < d1 {
+                    let s0 = if w0 { c0a.last_seq.get() } else { c0b.last_seq.get() };
+                    let s1 = if w1 { c1a.last_seq.get() } else { c1b.last_seq.get() };
+                    assert!(s0 < s1, "C15 timer check2: due timers were not woken in deadline order");
+                }
+                let left0 = r0 && !due0;
+                let left1 = r1 && !due1;
+                let mn = if left0 && left1 { Some(if d0 < d1 { d0 } else { d1 }) } else if left0 { Some(d0) } else if left1 { Some(d1) } else { None };
+                assert!(svc.next_expiration() == mn, "C15 timer check2: next_expiration() differs from the smallest registered deadline");
+            }
+            if (p & P01) != 0 {
+                assert!(due0 == f0.wait_node.verif_unlinked() || !r0, "C01 timer check2: an expired timer is still linked in the heap (or a pending one is not)");
+                assert!(due1 == f1.wait_node.verif_unlinked() || !r1, "C01 timer check2: an expired timer is still linked in the heap (or a pending one is not)");
+            }
+            kani::cover!(due0 && due1 && d0 < d1, "W check2: two timers expire in order");
+            kani::cover!(due0 && r1 && !due1, "W check2: one expires, one stays");
+        }
+        #[kani::proof]
+        #[kani::unwind(4)]
+        fn step_c15_check2() { check2(P15) }
+        #[kani::proof]
+        #[kani::unwind(4)]
+        fn step_c01_check2() { check2(P01) }
+
         #[kani::proof]
         #[kani::unwind(3)]
         fn repoll_panics() {
@@ -395,33 +487,43 @@ pub(crate) mod verif_timer {
             repoll_after_ready(Timer::deadline(&svc, 0));
         }
         #[kani::proof]
-        #[kani::unwind(5)]
+        #[kani::unwind(6)]
         #[kani::stub(alloc::alloc::alloc, crate::verif::common::stub_alloc)]
         #[kani::stub(alloc::alloc::dealloc, crate::verif::common::stub_dealloc)]
         #[kani::stub(alloc::alloc::realloc, crate::verif::common::stub_realloc)]
-        fn hist_c18_n4() { let _ = hist::<NoopLock, _>(&mut KaniSrc, 0, 4, P18); }
+        fn hist_c18_stub_k3_drop_a4() { let _ = hist::<NoopLock, _>(&mut KaniSrc, 4 | (1 << 11), 64, P18); }
         macro_rules! hist_proof {
             ($name:ident, $lock:ty, $n:expr, $p:expr, $unw:expr) => {
                 #[kani::proof]
                 #[kani::unwind($unw)]
                 fn $name() {
-                    let bits = hist::<$lock, _>(&mut KaniSrc, 0, $n, $p);
-                    kani::cover!(bits & W_DUE_AND_NOT_DUE != 0, "W check expires one timer and leaves another");
+                    // $n = n1 | n2 << 4 (phase lengths)
+                    let bits = hist::<$lock, _>(&mut KaniSrc, $n, 64, $p);
+                    kani::cover!(bits & (W_DUE_AND_NOT_DUE | W_DROP_REGISTERED | W_DUP_DEADLINE) != 0, "W timer hist: an interesting situation is reachable");
                 }
             };
         }
-        hist_proof!(hist_c15_n3, NoopLock, 3, P15, 5);
-        hist_proof!(hist_c15_n4, NoopLock, 4, P15, 5);
-        hist_proof!(hist_c15_n5, NoopLock, 5, P15, 7);
-        hist_proof!(hist_c15_n6, NoopLock, 6, P15, 8);
-        hist_proof!(hist_c15_n7, NoopLock, 7, P15, 9);
-        hist_proof!(hist_c15_n5_check, CheckLock, 5, P15, 7);
-        hist_proof!(hist_c17_n4, NoopLock, 4, P17, 5);
-        hist_proof!(hist_c17_n5, NoopLock, 5, P17, 7);
-        hist_proof!(hist_c01_n4, NoopLock, 4, P01, 5);
-        hist_proof!(hist_c01_n5, NoopLock, 5, P01, 7);
-        hist_proof!(hist_c01_n5_check, CheckLock, 5, P01, 7);
 
+        hist_proof!(hist_c15_k2_chk_a3b1, NoopLock, 3 | (1 << 4) | (2 << 8) | (1 << 10), P15, 5);
+        hist_proof!(hist_c15_k3_chk_a4b1, NoopLock, 4 | (1 << 4) | (1 << 10), P15, 6);
+        hist_proof!(hist_c15_k3_drop_a4, NoopLock, 4 | (1 << 11), P15, 6);
+        hist_proof!(hist_c15_k3_drop_a5, NoopLock, 5 | (1 << 11), P15, 7);
+        hist_proof!(hist_c15_k3_all_a3b1, NoopLock, 3 | (1 << 4), P15, 5);
+        hist_proof!(hist_c17_k2_chk_a3b1, NoopLock, 3 | (1 << 4) | (2 << 8) | (1 << 10), P17, 5);
+        hist_proof!(hist_c17_k3_chk_a4b1, NoopLock, 4 | (1 << 4) | (1 << 10), P17, 6);
+        hist_proof!(hist_c17_k3_drop_a4, NoopLock, 4 | (1 << 11), P17, 6);
+        hist_proof!(hist_c17_k3_drop_a5, NoopLock, 5 | (1 << 11), P17, 7);
+        hist_proof!(hist_c17_k3_all_a3b1, NoopLock, 3 | (1 << 4), P17, 5);
+        hist_proof!(hist_c01_k2_chk_a3b1, NoopLock, 3 | (1 << 4) | (2 << 8) | (1 << 10), P01, 5);
+        hist_proof!(hist_c01_k3_chk_a4b1, NoopLock, 4 | (1 << 4) | (1 << 10), P01, 6);
+        hist_proof!(hist_c01_k3_drop_a4, NoopLock, 4 | (1 << 11), P01, 6);
+        hist_proof!(hist_c01_k3_drop_a5, NoopLock, 5 | (1 << 11), P01, 7);
+        hist_proof!(hist_c01_k3_all_a3b1, NoopLock, 3 | (1 << 4), P01, 5);
+        hist_proof!(hist_c18_k2_chk_a3b1, NoopLock, 3 | (1 << 4) | (2 << 8) | (1 << 10), P18, 5);
+        hist_proof!(hist_c18_k3_chk_a4b1, NoopLock, 4 | (1 << 4) | (1 << 10), P18, 6);
+        hist_proof!(hist_c18_k3_drop_a4, NoopLock, 4 | (1 << 11), P18, 6);
+        hist_proof!(hist_c18_k3_drop_a5, NoopLock, 5 | (1 << 11), P18, 7);
+        hist_proof!(hist_c18_k3_all_a3b1, NoopLock, 3 | (1 << 4), P18, 5);
         #[kani::proof]
         #[kani::unwind(10)]
         fn delay_full_range() { delay_check(&mut KaniSrc, P15); }
@@ -436,6 +538,12 @@ pub(crate) mod verif_timer {
         step_proof!(step_c15_poll, NoopLock, 0, 4, P15);
         step_proof!(step_c15_drop, NoopLock, 1, 4, P15);
         step_proof!(step_c15_check_k3, NoopLock, 2, 3, P15);
+        #[kani::proof]
+        #[kani::unwind(6)]
+        fn step_c15_check_k2() { step::run::<NoopLock>(2, 2, P15) }
+        #[kani::proof]
+        #[kani::unwind(6)]
+        fn step_c01_check_k2() { step::run::<NoopLock>(2, 2, P01) }
         step_proof!(step_c15_check, NoopLock, 2, 4, P15);
         step_proof!(step_c01_poll, NoopLock, 0, 4, P01);
         step_proof!(step_c01_drop, NoopLock, 1, 4, P01);
@@ -444,9 +552,15 @@ pub(crate) mod verif_timer {
         step_proof!(step_c17, NoopLock, 3, 3, P17);
 
         #[kani::proof]
+        #[kani::unwind(6)]
+        fn witness_drop_k3_a4() {
+            let bits = hist::<NoopLock, _>(&mut KaniSrc, 4 | (1 << 11), 64, 0);
+            assert!(bits & W_DROP_REGISTERED == 0, "WITNESS reached");
+        }
+        #[kani::proof]
         #[kani::unwind(5)]
-        fn witness_order_n4() {
-            let bits = hist::<NoopLock, _>(&mut KaniSrc, 0, 4, 0);
+        fn witness_order_k2_a3b0() {
+            let bits = hist::<NoopLock, _>(&mut KaniSrc, 3 | (2 << 8) | (1 << 10), 64, 0);
             assert!(bits & W_TWO_EXPIRE == 0, "WITNESS reached");
         }
     }
